@@ -167,6 +167,25 @@ pub fn run(ctx: &mut Ctx) {
     ];
     let reps = ctx.tier.pick(3usize, 40);
     let seed = ctx.seed;
+    // ---- descriptions that leave everything but the payload at the documented defaults (built from
+    // `DataFrame::default()` by the bridge): unconfirmed uplink, address 0, counter 0, no flags, no FOpts
+    {
+        let mut st = Stats::new();
+        let mut rng = SplitMix::new(seed ^ 0xC01D);
+        for plen in [0usize, 1, 16, 17, 242] {
+            for kind in 0..3 {
+                for net in [false, true] {
+                    let payload = match kind { 0 => RefPayload::None, 1 => RefPayload::Data { port: 1 + rng.below(255) as u8, data: rng.bytes(plen) }, _ => RefPayload::Mac(rng.bytes(plen)) };
+                    let d = DataDesc { ftype: FType::UnconfUp, dev_addr: 0, adr: false, adr_ack_req: false, ack: false, f_pending: false, fcnt: 0, fopts: vec![], payload };
+                    let (nwk, app) = (rng.key(), rng.key());
+                    st.class("all-defaults");
+                    let r = check_data(&d, &nwk, Some(&app), 256, net);
+                    record(&mut st, &d, r, || data_case(&d, &nwk, Some(&app), 256, net));
+                }
+            }
+        }
+        ctx.stats.merge(st);
+    }
     // ---- systematic sweep
     ctx.parallel(|ti, n, st| {
         let mut rng = SplitMix::new(seed ^ 0xC01 ^ (ti as u64) << 32);
